@@ -38,6 +38,11 @@ CHECKS = {
             'docs/json_serializer.rst and driven by the model',
             'Held on the executions produced: every encoding equal (kind-strict JSON) to the reference wire '
             'format and JSON-compatible.', '4 C05'),
+    'C06': ('runtime monitoring: hostile documents (reference encodings, typed structural mutations, arbitrary small '
+            'documents) through the real decoder entry points; exception-class oracle, AV read-back with a '
+            'reference type predicate, and a reference must-accept/must-reject/unspecified classifier',
+            'Held on the executions produced: every decode returned a valid value or ValidationError and agreed '
+            'with the classifier on all must-accept and must-reject documents.', '4 C06'),
 }
 
 PENDING = {}
